@@ -154,7 +154,15 @@ Definition skip_all_A (pol : policy) : A unit := fun r =>
 (* ---- scripts of raw operations, for the correspondence stream c07.grants ---- *)
 Inductive aop :=
 | ATakeU8 | ATakeOpt | ASkip (n : N) | ATakeAll | ASkipAll | ASetLim (l : option N)
-| ARequest (n : N) | ATag.
+| ARequest (n : N) | ATag | AExhausted.
+
+(* LimitedSource::exhausted: limit 0 / limit left / no limit: request(1) == 0 *)
+Definition exhausted_A (pol : policy) : A unit := fun r =>
+  match rlim r with
+  | Some 0 => (Ok tt, r)
+  | Some _ => (CErr, r)
+  | None => bindA (requestA pol 1) (fun g => if g <? 1 then retA tt else cerrA) r
+  end.
 
 Definition tag_A (pol : policy) : A (option (N * N * N * N * bool)) := runA pol
   (PTakeOpt (fun ob => match ob with None => PRet None | Some b =>
@@ -185,6 +193,7 @@ Definition run_aop (pol : policy) (o : aop) : A (list Z) :=
   | ATag => mapA (fun ot : option (N * N * N * N * bool) => match ot with
                  | Some (a,b,c,d,k) => [1%Z; Z.of_N a; Z.of_N b; Z.of_N c; Z.of_N d; if k then 1%Z else 0%Z]
                  | None => [0%Z] end) (tag_A pol)
+  | AExhausted => mapA (fun _ => [0%Z]) (exhausted_A pol)
   end.
 
 (* run until the first error; (code, log, final source) *)
@@ -221,5 +230,6 @@ Fixpoint parse_aops (fuel : nat) (l : list N) : list aop :=
   | 6 :: t => ASetLim None :: parse_aops f t
   | 7 :: n :: t => ARequest n :: parse_aops f t
   | 8 :: t => ATag :: parse_aops f t
+  | 9 :: t => AExhausted :: parse_aops f t
   | _ => []
   end end.
